@@ -43,8 +43,9 @@ def warm_up():
     import hotxlfp
     if not os.path.realpath(hotxlfp.__file__).startswith(REPO):
         raise HarnessError('hotxlfp imported from %s, not from %s' % (hotxlfp.__file__, REPO))
-    from . import seams
+    from . import seams, sched
     seams.install()
+    sched.install_lock_seam()
     hotxlfp.Parser()
     return hotxlfp
 
